@@ -1,0 +1,6 @@
+// +build !verif
+
+package index
+
+// verifPause is a no-op unless built with -tags verif (see verif_hooks.go).
+func verifPause(point string) {}
